@@ -162,38 +162,88 @@ Proof.
 Qed.
 
 (* ---- relative_position_angle ---- *)
-(* new, cancellation-free form: atan2 (cos d1 sin da) (sin dd + 2 sin d2 cos d1 sin^2 (da/2)) *)
-Definition pa_x (dd da d1 d2 : R) : R :=
+(* the right-ascension difference (degrees) wrapped to [-180, 180] as the code does *)
+Definition pa_wrap (D : R) : R :=
+  if Rlt_dec (Rlit 1800 (-1)) D then D - Rlit 3600 (-1)
+  else if Rlt_dec D (Rlit (-1800) (-1)) then D + Rlit 3600 (-1) else D.
+(* the two cancellation-free forms of the second atan2 argument *)
+Definition pa_x1 (dd da d1 d2 : R) : R :=
   sin dd + Rlit 20 (-1) * sin d2 * cos d1 * (sin (da / Rlit 20 (-1)) * sin (da / Rlit 20 (-1))).
-Definition pa_rad (dd da d1 d2 : R) : R := atan2 (cos d1 * sin da) (pa_x dd da d1 d2).
+Definition pa_x2 (ds da d1 d2 : R) : R :=
+  sin ds - Rlit 20 (-1) * sin d2 * cos d1 * (cos (da / Rlit 20 (-1)) * cos (da / Rlit 20 (-1))).
+Definition pa_x (dd ds da d1 d2 : R) : R :=
+  if Rle_dec (Rlit 0 (-1)) (cos da) then pa_x1 dd da d1 d2 else pa_x2 ds da d1 d2.
+Definition pa_rad (dd ds da d1 d2 : R) : R := atan2 (cos d1 * sin da) (pa_x dd ds da d1 d2).
 (* the textbook quotient form *)
 Definition pa_old (da d1 d2 : R) : R := atan2 (sin da) (cos d2 * tan d1 - sin d2 * cos da).
 
+Definition pa_deg (a1 d1 a2 d2 : R) : R :=
+  r2d (pa_rad (d2r (red360 (d1 + - d2))) (d2r (red360 (d1 + d2)))
+              (d2r (pa_wrap (red360 (a1 + - a2)))) (d2r d1) (d2r d2)).
+
 Lemma relpa_closed a1 d1 a2 d2 :
   -360 < a1 < 360 -> -360 < a2 < 360 -> -360 < d1 < 360 -> -360 < d2 < 360 ->
-  f_relative_position_angle Rops (ang a1) (ang d1) (ang a2) (ang d2)
-  = ang (r2d (pa_rad (d2r (red360 (d1 + - d2))) (d2r (red360 (a1 + - a2))) (d2r d1) (d2r d2))).
-Proof. intros Ha1 Ha2 Hd1 Hd2. crun. reflexivity. Qed.
-
-(* x of the new form = cos d1 * (x of the quotient form) = u1 . north2 *)
-Lemma pa_x_value A1 D1 A2 D2 :
-  pa_x (d2r (red360 (D1 + - D2))) (d2r (red360 (A1 + - A2))) (d2r D1) (d2r D2)
-  = sin (d2r D1) * cos (d2r D2) - sin (d2r D2) * cos (d2r D1) * cos (d2r A1 - d2r A2).
+  f_relative_position_angle Rops (ang a1) (ang d1) (ang a2) (ang d2) = ang (pa_deg a1 d1 a2 d2).
 Proof.
-  unfold pa_x. replace (Rlit 20 (-1)) with 2 by (Rlit_norm; lra).
-  rewrite sin2_half, sin_d2r_red360, cos_d2r_red360.
-  replace (d2r (D1 + - D2)) with (d2r D1 - d2r D2) by (unfold d2r; ring).
-  replace (d2r (A1 + - A2)) with (d2r A1 - d2r A2) by (unfold d2r; ring).
-  rewrite sin_minus. field.
+  intros Ha1 Ha2 Hd1 Hd2. unfold pa_deg, pa_rad, pa_x, pa_wrap, d2r.
+  destruct (Rlt_dec (Rlit 1800 (-1)) (red360 (a1 + - a2))) as [Hw | Hw];
+    [| destruct (Rlt_dec (red360 (a1 + - a2)) (Rlit (-1800) (-1))) as [Hw' | Hw']].
+  - destruct (Rle_dec _ _) as [Hc | Hc].
+    + crun. reflexivity.
+    + crun. reflexivity.
+  - destruct (Rle_dec _ _) as [Hc | Hc].
+    + crun. reflexivity.
+    + crun. reflexivity.
+  - destruct (Rle_dec _ _) as [Hc | Hc].
+    + crun. reflexivity.
+    + crun. reflexivity.
 Qed.
 
-(* the new form equals the quotient form of Meeus when cos d1 > 0 *)
-Theorem relpa_quotient_form a1 d1 a2 d2 : 0 < cos (d2r d1) ->
-  pa_rad (d2r (red360 (d1 + - d2))) (d2r (red360 (a1 + - a2))) (d2r d1) (d2r d2)
-  = pa_old (d2r a1 - d2r a2) (d2r d1) (d2r d2).
+Lemma pa_wrap_cases D : exists k : Z, pa_wrap D = D + 360 * IZR k.
 Proof.
-  intros Hc. unfold pa_rad, pa_old. rewrite pa_x_value, sin_d2r_red360.
-  replace (d2r (a1 + - a2)) with (d2r a1 - d2r a2) by (unfold d2r; ring).
+  unfold pa_wrap. destruct (Rlt_dec _ D); [| destruct (Rlt_dec D _)].
+  - exists (-1)%Z. Rlit_norm. lra.
+  - exists 1%Z. Rlit_norm. lra.
+  - exists 0%Z. lra.
+Qed.
+Lemma cos_d2r_wrap D : cos (d2r (pa_wrap D)) = cos (d2r D).
+Proof. destruct (pa_wrap_cases D) as [k Hk]. rewrite Hk. apply cos_d2r_360k. Qed.
+Lemma sin_d2r_wrap D : sin (d2r (pa_wrap D)) = sin (d2r D).
+Proof. destruct (pa_wrap_cases D) as [k Hk]. rewrite Hk. apply sin_d2r_360k. Qed.
+Lemma pa_wrap_range D : -360 < D < 360 -> -180 <= pa_wrap D <= 180.
+Proof.
+  intros H. unfold pa_wrap. destruct (Rlt_dec _ D) as [H1 | H1]; [| destruct (Rlt_dec D _) as [H2 | H2]];
+    Rlit_norm_all; lra.
+Qed.
+
+(* both forms of x are  sin d1 cos d2 - sin d2 cos d1 cos (a1 - a2)  = u1 . north2 *)
+Lemma pa_x_value A1 D1 A2 D2 :
+  pa_x (d2r (red360 (D1 + - D2))) (d2r (red360 (D1 + D2))) (d2r (pa_wrap (red360 (A1 + - A2))))
+       (d2r D1) (d2r D2)
+  = sin (d2r D1) * cos (d2r D2) - sin (d2r D2) * cos (d2r D1) * cos (d2r A1 - d2r A2).
+Proof.
+  assert (Hca : cos (d2r (pa_wrap (red360 (A1 + - A2)))) = cos (d2r A1 - d2r A2)).
+  { rewrite cos_d2r_wrap, cos_d2r_red360. f_equal. unfold d2r. ring. }
+  unfold pa_x. destruct (Rle_dec _ _) as [Hc | Hc].
+  - unfold pa_x1. replace (Rlit 20 (-1)) with 2 by (Rlit_norm; lra).
+    rewrite sin2_half, Hca, sin_d2r_red360.
+    replace (d2r (D1 + - D2)) with (d2r D1 - d2r D2) by (unfold d2r; ring).
+    rewrite sin_minus. field.
+  - unfold pa_x2. replace (Rlit 20 (-1)) with 2 by (Rlit_norm; lra).
+    rewrite cos2_half, Hca, sin_d2r_red360.
+    replace (d2r (D1 + D2)) with (d2r D1 + d2r D2) by (unfold d2r; ring).
+    rewrite sin_plus. field.
+Qed.
+
+Lemma pa_y_value A1 A2 :
+  sin (d2r (pa_wrap (red360 (A1 + - A2)))) = sin (d2r A1 - d2r A2).
+Proof. rewrite sin_d2r_wrap, sin_d2r_red360. f_equal. unfold d2r. ring. Qed.
+
+(* the computed angle equals the quotient form of Meeus when cos d1 > 0 *)
+Theorem relpa_quotient_form a1 d1 a2 d2 : 0 < cos (d2r d1) ->
+  pa_deg a1 d1 a2 d2 = r2d (pa_old (d2r a1 - d2r a2) (d2r d1) (d2r d2)).
+Proof.
+  intros Hc. unfold pa_deg, pa_rad, pa_old. rewrite pa_x_value, pa_y_value. f_equal.
   rewrite <- (atan2_scale (cos (d2r d1)) (sin (d2r a1 - d2r a2))) by assumption.
   f_equal. unfold tan. field. lra.
 Qed.
@@ -222,10 +272,8 @@ Theorem relpa_antisym a1 d1 a2 d2 p :
   f_relative_position_angle Rops (ang a2) (ang d1) (ang a1) (ang d2) = ang (- p).
 Proof.
   intros Ha1 Ha2 Hd1 Hd2 Hs H. rewrite relpa_closed in H by assumption. rewrite relpa_closed by assumption.
-  injection H as <-. f_equal. rewrite <- r2d_opp. f_equal. unfold pa_rad.
-  rewrite !pa_x_value, !sin_d2r_red360.
-  replace (d2r (a2 + - a1)) with (- (d2r a1 - d2r a2)) by (unfold d2r; ring).
-  replace (d2r (a1 + - a2)) with (d2r a1 - d2r a2) by (unfold d2r; ring).
+  injection H as <-. f_equal. unfold pa_deg. rewrite <- r2d_opp. f_equal. unfold pa_rad.
+  rewrite !pa_x_value, !pa_y_value.
   replace (d2r a2 - d2r a1) with (- (d2r a1 - d2r a2)) by ring.
   rewrite sin_neg, cos_neg. rewrite <- atan2_opp by assumption. f_equal. ring.
 Qed.
